@@ -102,6 +102,9 @@ Apply(tree, depth, a) ==
              old == AtPath(t1, a.pt).v
          IN Outcome(PutPath(t1, a.pt, Leaf(WriteVal(a.kind, old, a.v))), "ok")
     [] a.op \in {"get", "getpos", "len", "noop", "obs"} -> Outcome(tree, "ok")      \* observers
+    [] a.op = "fref" -> Outcome(tree, "ok")         \* a handle on the (interior) fiber at a.path is taken and kept
+    [] a.op = "detached" ->                         \* elements created and written through a kept handle whose fiber has LEFT the tree (an ancestor was cleared /
+         Outcome(tree, "ok")                        \* assigned over since): the released fiber belongs to nobody, nothing of the tensor changes
     [] a.op = "hwrite" ->                   \* write through a handle obtained earlier by getPayloadRef(*pt)
          Outcome(PutPath(tree, a.pt, Leaf(WriteVal(a.kind, AtPath(tree, a.pt).v, a.v))), "ok")
     [] a.op = "setroot" ->                  \* Tensor.setRoot(fiber) on a tensor that already has a root: the tree IS the given fiber from then on
@@ -131,6 +134,7 @@ Enabled(tree, depth, a) ==
     [] a.op = "hwrite"     -> Len(a.pt) = depth /\ AtPath(tree, a.pt).k = "L"
     [] a.op = "get"        -> /\ a.path \in FiberPaths(tree, depth) /\ Len(a.path) + Len(a.pt) <= depth /\ Len(a.pt) >= 1
                               /\ LegalSP(FiberAt(tree, a.path).e, a.pt[1], a.sp) /\ (a.sp # -1 => Len(a.pt) = 1)
+    [] a.op = "fref"    -> a.path \in FiberPaths(tree, depth) /\ Len(a.path) >= 1
     [] a.op = "dlookup" -> a.path \in FiberPaths(tree, depth)
     [] a.op = "dinsert" -> a.path \in LeafPaths(tree, depth)
     [] a.op \in {"getpos", "getposref"} -> a.path \in FiberPaths(tree, depth) /\ LegalSP(FiberAt(tree, a.path).e, a.c, a.sp)
